@@ -9,7 +9,10 @@ def main():
     assert scheduler.DIMENSION_COUNT == 3
     from selftest import fakezk_test
     n = fakezk_test.run()
-    print('selftest ok (%d fake-ZooKeeper assertions)' % n)
+    from selftest import modstate_test
+    k = modstate_test.run()
+    print('selftest ok (%d fake-ZooKeeper assertions, %d module-state '
+          'assertions)' % (n, k))
     return 0
 
 
